@@ -77,6 +77,9 @@ func (w *world) subscribe(cfg config) {
 	for _, m := range cfg.Modes {
 		st.view[m.ID] = m.proto()
 	}
+	for _, r := range cfg.Recs {
+		st.view[r.Mode.ID] = r.Mode.proto()
+	}
 	mch := w.model.PullModes(ctx, resource.WithUpdatesOnly(true), resource.WithBackpressure(true))
 	ach := w.model.PullActiveMode(ctx, resource.WithUpdatesOnly(true), resource.WithBackpressure(true))
 	go func() {
@@ -120,7 +123,7 @@ func eventTimeout() time.Duration {
 // PullActiveMode event iff a Set succeeded and the value differs from the one published before.
 func (w *world) collectEvents(m *lib.Monitor, input any, o op, before, after snap, err error, hadActiveEvent *bool) string {
 	st := w.streams
-	if o.untame() != "" {
+	if o.untame() != "" || w.untamed {
 		m = nil // the state-level monitor reports this operation; the events still go to the tie
 	}
 	wantModes := 0
